@@ -348,6 +348,7 @@ def run(facts, out):
     # ---- D5 / D6 (HIR)
     check_create(facts, out, by_ty)
     check_conversions(facts, out, by_ty)
+    check_subvalue_mutation(facts, out, by_ty)
     # ---- D7
     st = facts.items['statics']
     for s in st:
@@ -637,3 +638,44 @@ def _check_sub_value(init, pname, state_of, decoder_of_state, kind, fname, root)
     if fc is not None and fc[0] == pname:
         return True, ''
     return False, 'field `%s`: source `%s` is not derived from the parameter' % (fname, root)
+
+
+def check_subvalue_mutation(facts, out, by_ty):
+    """D6c: inside a state->value conversion of an aggregating decoder, the values of *delegated*
+    sections (those another decoder is the primary parser of) are copied out unmodified: no store
+    into them and no `&mut` borrow of them.  (The decoder's own section data may be post-processed.)"""
+    value_tys = set(by_ty)
+    state_tys = {d.state for d in by_ty.values()}
+    n = 0
+    for ty, d in sorted(by_ty.items()):
+        fn = '<%s as std::convert::From<%s>>::from' % (ty, d.state)
+        b = facts.body(fn)
+        if b is None or ty == d.state:
+            continue
+        n += 1
+        watched = {}
+        for l, lt in enumerate(b.locals):
+            a = lt.get('adt')
+            if l == 0 or a is None:
+                continue
+            if a in (value_tys | state_tys) and a not in (ty, d.state):
+                watched[l] = a
+        bad = None
+        for bi, blk in enumerate(b.blocks):
+            if blk.get('cleanup'):
+                continue
+            for s in blk['st']:
+                if s['k'] != 'assign':
+                    continue
+                if s['pl']['l'] in watched and s['pl']['p']:
+                    bad = (loc_of(s['sp']), 'store into `%s`' % watched[s['pl']['l']])
+                rv = s['rv']
+                if rv['k'] == 'ref' and rv['m'] == 'mut' and rv['pl']['l'] in watched:
+                    bad = (loc_of(s['sp']), '`&mut` borrow of `%s`' % watched[rv['pl']['l']])
+                if rv['k'] == 'rawptr' and rv['pl']['l'] in watched:
+                    bad = (loc_of(s['sp']), 'raw borrow of `%s`' % watched[rv['pl']['l']])
+        out.add('DG-D6', fn, 'sub-values-unmodified', bad[0] if bad else '%s:%d' % (b.file, b.line), bad is None,
+                '' if bad is None else ('%s inside the conversion: the value of a section that a specialised decoder '
+                                        'returns unmodified is changed here, so the two decoders disagree') % bad[1],
+                {'watched': sorted(set(watched.values()))}, ordinal=False)
+    out.anchor('DG', 'aggregating conversions checked for sub-value mutation', n >= 3, '%d' % n)
